@@ -16,6 +16,7 @@ from __future__ import annotations
 import implenv  # noqa: F401
 
 import asyncio
+import os
 
 import vtime
 import workrun
@@ -29,6 +30,7 @@ ASSUMPTIONS = ["process death and OS signal timing are runtime; the stop request
                "Redis recovery after a crash (maintenance) is checked in the Redis part"]
 F2 = "F2-mem-requeue-not-atomic"
 F24 = "F24-redis-finish-leaves-fetch-in-flight"
+F26 = "F26-rabbit-cancelled-handover-stays-unacked"
 
 MS = 1000
 
@@ -86,13 +88,15 @@ async def one_run(sc: dict, graceful: float, k: int | None) -> WorkerRun:
     for _ in range(6):
         await asyncio.sleep(0)
     if sc.get("broker") == "rabbit":
-        # on RabbitMQ the in-flight state lives in the channel: "afterwards" is after the worker's connection is closed
-        # (every unacknowledged delivery then returns to its queue — the server's guarantee, assumption set A)
+        # on RabbitMQ the consumer's last rejects (deliveries that arrived while it was being stopped wait 0.1 s before they
+        # are given back) are given the time to happen; the state is then read while the worker's connection is still open —
+        # what is unacknowledged now stays in flight for as long as the process keeps its connection
         await asyncio.sleep(0.3)
+    run.final = {q: run.msg_params(q) for q in set(sc["actors"].values())}
+    if sc.get("broker") == "rabbit":
         await run.broker.disconnect()
         for _ in range(6):
             await asyncio.sleep(0)
-    run.final = {q: run.msg_params(q) for q in set(sc["actors"].values())}
     run.fired = state["fired"]
     return run
 
@@ -148,6 +152,11 @@ def judge(run: WorkerRun, sc: dict, graceful: float, k, res: Result, label: str)
                 # every delivery handed to the runner was disposed of: this mark belongs to a take of the consumer's background
                 # fetch loop that was never handed over — dropped by finish()
                 finding = F24
+            if sc.get("broker") == "rabbit" and len(delivers) == len([o for o in done_ops if o in ("ack", "nack", "reject", "requeue")]):
+                # every delivery handed to the runner was disposed of: this one was taken out of the consumer's local queue by a
+                # consume() call that was cancelled before it could hand the message over (inside the middleware wrapper's
+                # `after_consume` signal) — finish() does not know about it any more
+                finding = F26
         elif len(here) > 1:
             problem = "message present more than once"
         elif "ack" in terminal_done and here:
